@@ -139,6 +139,12 @@ impl PacketSender {
         self.alloc
     }
 
+    // Accounts for a packet in the transfer window whose payload has been discarded unsent.
+    pub fn forget_bytes(&mut self, size: usize) {
+        debug_assert!(size <= self.total_size);
+        self.total_size -= size;
+    }
+
     // Places a user packet on the send queue.
     pub fn enqueue_packet(&mut self, data: Box<[u8]>, channel_id: u8, mode: SendMode, flush_id: u32) {
         debug_assert!(data.len() <= MAX_PACKET_SIZE);
@@ -205,6 +211,10 @@ impl PacketSender {
                                                                          sequence_id,
                                                                          window_parent_lead,
                                                                          channel_parent_lead)));
+
+            if packet.mode == SendMode::TimeSensitive {
+                pending_packet.borrow_mut().set_time_sensitive(packet.flush_id);
+            }
 
             let pending_packet_clone = Rc::clone(&pending_packet);
 
